@@ -28,7 +28,7 @@ import ast
 import itertools
 
 from .core import AnalysisError
-from .objmodel import ClassModel, new_parser_state, open_checkpoints
+from .objmodel import ClassModel, new_parser_state, counter_value, open_checkpoints, stack_items
 from .opsem import INPUT, RELS, Oracle, make_oracle, program
 from .ordabs import Ev, ModelRaise, Obj
 from .repo import Repo
@@ -63,8 +63,8 @@ def pair_shape(p: object) -> object:
 
 def observe(state: Obj, pairs: list, result: object) -> dict:
     return {
-        "result": bool(result), "pos": state.pos, "stack": list(state.user_stack.__dict__.get("items", [])), "pairs": tuple(pair_shape(p) for p in pairs),
-        "frames": len(state.rule_stack.__dict__.get("items", [])), "atomic": state.atomic_depth.__dict__.get("_value"), "negdepth": state.neg_pred_depth,
+        "result": bool(result), "pos": state.pos, "stack": stack_items(state, state.user_stack), "pairs": tuple(pair_shape(p) for p in pairs),
+        "frames": len(stack_items(state, state.rule_stack)), "atomic": counter_value(state, state.atomic_depth), "negdepth": state.neg_pred_depth,
         "tags": list(state.tag_stack), "open_checkpoints": open_checkpoints(state),
         "hide": bool(state.__dict__.get("hide_pairs", False)),
         # the furthest-failure record: where, and under which rule names (label texts are not compared)
